@@ -1,14 +1,16 @@
 SPECIFICATION Spec
 CONSTANTS
-  ClassLevelPropagate = TRUE
+  ClassLevelPropagate = FALSE
   ParamResolve = FALSE
+  InitRestated = FALSE
   OriginFromSuper = FALSE
   AllowModifyBusy = FALSE
   Parent <- TwoRoots
   Mode = "dyn"
   QSels = {{}}
-  InstKeys = {1}
-  WithModify = TRUE
+  Vias = {"api"}
+  InstKeys = {}
+  WithModify = FALSE
   AllFlags = FALSE
   GenDepth = 0
 INVARIANT ImplRefinesReq
